@@ -199,6 +199,14 @@ def build_consistent(rng, root, skel, opts=None):
             m2 = m2 if not d else d + '/' + m2
             layout['mans'][m2] = {'fmt': fmt2, 'parent': mpath, 'entries': []}
             by_dir[d].append(m2)
+            if rng.random() < 0.35:
+                # ... and a third one referenced by the second (a same-directory
+                # chain Manifest -> Manifest.files -> Manifest.more)
+                fmt3 = rng.choice(fmts)
+                m3 = man_name('Manifest.more', fmt3)
+                m3 = m3 if not d else d + '/' + m3
+                layout['mans'][m3] = {'fmt': fmt3, 'parent': m2, 'entries': []}
+                by_dir[d].append(m3)
     # MANIFEST entries in parents
     for mpath, md in layout['mans'].items():
         if md['parent'] is None:
